@@ -82,8 +82,52 @@ def run_case(ctx, case, fonts, ds, call, expect_raise=False, nontriv=True):
             return
 
 
+def filter_section(ctx):
+    """every glyph filter ufo2ft ships, named in the font's lib (before and after decomposition), one at a time and in pairs,
+    over one purpose-built font that gives each filter work to do: composites (nested, transformed), overlapping contours,
+    marks and bases with anchors, a U+25CC glyph that lacks the anchors the marks need (even cases) or no such glyph (odd
+    cases), cubic curves; TTF and OTF, both UFO libraries -- the caller's font is the same before and after"""
+    import ufo2ft
+    sq = lambda x, y, d: [[(Fr(x), Fr(y), "line"), (Fr(x + d), Fr(y), "line"), (Fr(x + d), Fr(y + d), "line"), (Fr(x), Fr(y + d), "line")]]
+    cub = [[(Fr(0), Fr(0), "line"), (Fr(100), Fr(0), None), (Fr(200), Fr(100), None), (Fr(200), Fr(200), "curve"), (Fr(0), Fr(200), "line")]]
+    filters = [("cubicToQuadratic", {}), ("decomposeComponents", {}), ("decomposeTransformedComponents", {}), ("dottedCircle", {}),
+               ("flattenComponents", {}), ("propagateAnchors", {}), ("removeOverlaps", {}), ("reverseContourDirection", {}),
+               ("sortContours", {}), ("transformations", {"kwargs": {"OffsetX": 10, "ScaleY": 50}}),
+               ("skipExportGlyphs", {"kwargs": {"skipExportGlyphs": ["a"]}})]
+    n = ctx.budget(22, 88)
+    for i in range(n):
+        lib = ["ufoLib2", "defcon"][i % 2]
+        fn = ["compileTTF", "compileOTF"][(i // 2) % 2]
+        name, extra = filters[i % len(filters)]
+        pre = (i // len(filters)) % 2 == 0
+        glyphs = [{"name": "a", "unicodes": [0x61], "width": 500, "contours": sq(50, 0, 400) + sq(250, 200, 300) + cub, "components": [],
+                   "anchors": [("top", Fr(250), Fr(520)), ("bottom", Fr(250), Fr(-10))]},
+                  {"name": "acutecomb", "unicodes": [0x301], "width": 0, "contours": sq(-60, 550, 80), "components": [],
+                   "anchors": [("_top", Fr(-20), Fr(520)), ("top", Fr(-20), Fr(700))]},
+                  {"name": "dotbelowcomb", "unicodes": [0x323], "width": 0, "contours": sq(-40, -150, 60), "components": [],
+                   "anchors": [("_bottom", Fr(-10), Fr(-10))]},
+                  {"name": "aacute", "unicodes": [0xE1], "width": 500, "contours": [], "anchors": [],
+                   "components": [("a", (1, 0, 0, 1, 0, 0)), ("acutecomb", (Fr(1, 2), 0, 0, 1, 270, 0))]},
+                  {"name": "aacutedot", "unicodes": [0x1EA1], "width": 500, "contours": [], "anchors": [],
+                   "components": [("aacute", (1, 0, 0, 1, 0, 0)), ("dotbelowcomb", (1, 0, 0, 1, 250, 0))]}]
+        if i % 2 == 0:
+            glyphs.append({"name": "dottedcircle", "unicodes": [0x25CC], "width": 600, "contours": sq(100, 100, 400), "components": [],
+                           "anchors": [("bottom", Fr(300), Fr(-20))] if i % 4 == 2 else []})
+        flt = [dict({"name": name, "pre": pre}, **extra)]
+        if i >= 2 * len(filters):
+            n2, e2 = filters[(i * 7 + 3) % len(filters)]
+            flt.append(dict({"name": n2, "pre": not pre}, **e2))
+        desc = {"glyphs": glyphs, "glyphOrder": [g["name"] for g in glyphs], "lib": {FILTERS_KEY: flt},
+                "features": "languagesystem DFLT dflt;\n"}
+        font = build_font(desc, lib)
+        case = {"function": fn, "lib": lib, "filters": jsonable(flt), "font": jsonable(desc)}
+        ctx.klass("lib filter:%s%s" % (name, "/pre" if pre else ""))
+        run_case(ctx, case, [font], None, lambda: getattr(ufo2ft, fn)(font))
+
+
 def explore(ctx):
     import ufo2ft
+    filter_section(ctx)
     rng = ctx.subrng("sources")
     # ---------------- generated static fonts
     for i in range(ctx.budget(24, 160)):
